@@ -12,6 +12,7 @@ mod dev;
 mod dump;
 mod page;
 mod prog;
+mod queue;
 mod simple;
 mod untrusted;
 mod util;
@@ -46,7 +47,7 @@ fn main() {
         "c19-run" => c19::run(&arg(&args, "--sources").expect("--sources"), &out),
         "c17-run" => c17::run(&arg(&args, "--progs").expect("--progs"), argn(&args, "--depth", 2) as usize, &out),
         "lib-dump" => dump::run(&arg(&args, "--file").expect("--file"), &out),
-        "e57-read" => prog::read_cases(&arg(&args, "--cases").expect("--cases"), argn(&args, "--from", 0) as usize, &out),
+        "e57-read" => prog::read_cases(&arg(&args, "--cases").expect("--cases"), argn(&args, "--from", 0) as usize, argn(&args, "--queue-policies", 2) as usize, &out),
         "untrusted-run" => untrusted::run(&arg(&args, "--bases").expect("--bases"), &arg(&args, "--muts").expect("--muts"), argn(&args, "--from", 0) as usize, &out),
         "dump-bases" => untrusted::dump_bases(&arg(&args, "--bases").expect("--bases"), &out),
         "bits-replay" => bits::replay(&arg(&args, "--edges").expect("--edges"), &out),
